@@ -139,6 +139,6 @@ func c06Check(in []byte, dirty *[]byte) (info c06Info, err error) {
 
 func CheckC06(c *core.Case) error {
 	dirty := []byte("dirty \\ \" scratch 0123456789 \xff")
-	_, err := c06Check([]byte(c.In), &dirty)
+	_, err := c06Check(inputOf(c), &dirty)
 	return err
 }
